@@ -222,6 +222,7 @@ class Analysis:
         self.models = {}   # external function name -> model(an, f, call, state) -> [(value, state)]
         self.inline = True  # analyse same-file loop-free callees in the caller's state
         self.on_index = None  # on_index(f, idx node, base key, index form, state)
+        self.param_alias = {}  # record name -> canonical name for pointer parameters of that record type
         self.on_loop_pre = on_loop_pre
         self.on_loop_entry = on_loop_entry
         self.on_backedge = on_backedge
@@ -279,7 +280,7 @@ class Analysis:
             if e.get("arrow"):
                 base = ir.strip(e["b"])
                 if isinstance(base, dict) and base.get("k") == "var":
-                    p = st.ptr.get((f.name, base["id"]), base["n"])
+                    p = st.ptr.get((f.name, base["id"]), self.pname(base))
                     if (f.name, base["id"]) in st.objptr:
                         return "%s.%s" % (p, e["f"])
                     return "%s->%s" % (p, e["f"])
@@ -306,6 +307,14 @@ class Analysis:
                 return "%s[%s]" % (bk, lshow(vals[0][0]))
             return "%s[?]" % bk
         return None
+
+    def pname(self, v):
+        """name under which a pointer variable's pointee is keyed: parameters
+        of the aliased record types get a canonical name, so that renaming a
+        parameter does not change cell keys"""
+        if "p" in v and v.get("r") in self.param_alias:
+            return self.param_alias[v["r"]]
+        return v["n"]
 
     def ptr_target(self, f, e, st):
         """cell key a pointer expression points to:  &lvalue,  array + i - 1"""
@@ -509,7 +518,7 @@ class Analysis:
                     if isinstance(a0, dict) and a0.get("k") == "addr":
                         nxt.append((vals + [("addr", self.cellkey(f, a0["e"], s))], s))
                     elif isinstance(a0, dict) and a0.get("k") == "var" and a0.get("pd"):
-                        nxt.append((vals + [("ptr", s.ptr.get((f.name, a0["id"]), a0["n"]))], s))
+                        nxt.append((vals + [("ptr", s.ptr.get((f.name, a0["id"]), self.pname(a0)))], s))
                     else:
                         for v, s2 in self.eval(f, a, s):
                             nxt.append((vals + [("val", v)], s2))
